@@ -438,9 +438,10 @@ written by the pickler.  `resolve` = whether the adapter's reader resolves `py/i
 structure Cfg where
   decoderResolvesRefs : Bool
   saveAfterEveryStepRequest : Bool   -- wave 3: see `stepReq`
+  restoreKeepsClock : Bool           -- wave 6: see `setState`
 deriving DecidableEq, Repr
 
-def Cfg.good (c : Cfg) : Bool := c.decoderResolvesRefs && c.saveAfterEveryStepRequest
+def Cfg.good (c : Cfg) : Bool := c.decoderResolvesRefs && c.saveAfterEveryStepRequest && c.restoreKeepsClock
 
 def settingsJ (ident : Nat → Nat) : Stored → J
   | .plain s => encode (logPV ident s.settingsLog)
@@ -493,5 +494,21 @@ def stepReq (c : Cfg) (st : IState) : Req → IState
       else { st with session := some s' }
 
 def runReqs (c : Cfg) (reqs : List Req) : IState := reqs.foldl (stepReq c) IState.init
+
+/-! ### wave 6: what `reconstruct_instance → bptk._set_state` does with the decoded session
+
+All three load paths (lazy per-instance load, `POST /load-state`, load at start-up) end in `_set_state`, which
+installs the decoded dictionary as the session.  Mechanism fact `restoreKeepsClock`: it applies no function to the
+session clock.  The defective variant "puts the clock back on the grid" with a normalisation whose hidden default
+precision is two decimals: a clock such as 0.375 (dt 0.125, odd number of steps) comes back as 0.38. -/
+
+/-- 0.01 in the harness's time unit 1/640000 -/
+def centi : Time := 6400
+
+/-- round to the nearest multiple of `q` (ties up) -/
+def roundTo (q t : Time) : Time := ((2 * t + q) / (2 * q)) * q
+
+def setState (c : Cfg) (s : Session) : Session :=
+  if c.restoreKeepsClock then s else { s with step := roundTo centi s.step }
 
 end Bptk.C19
